@@ -65,7 +65,7 @@ fn c05_case(seed: u64, trace: bool) -> CaseOut {
 pub fn run_c05(ctx: &Ctx) -> i32 {
     let t = Instant::now();
     let mut rep = Report::default();
-    let g = Group { name: "limits", cases: ctx.tier.pick(1200, 80_000), budget_s: ctx.tier.pick(45.0, 1200.0), exhaustive: false };
+    let g = Group { name: "limits", cases: ctx.tier.pick(1200, 80_000), budget_s: ctx.tier.pick(45.0, 720.0), exhaustive: false };
     run_group(ctx, &mut rep, &g, |_, seed, trace| c05_case(seed, trace));
     finish(
         ctx,
@@ -139,11 +139,11 @@ fn c07_case(seed: u64, lane: Lane, trace: bool) -> CaseOut {
 pub fn run_c07(ctx: &Ctx) -> i32 {
     let t = Instant::now();
     let mut rep = Report::default();
-    let g = Group { name: "amp-null", cases: ctx.tier.pick(1500, 100_000), budget_s: ctx.tier.pick(40.0, 1000.0), exhaustive: false };
+    let g = Group { name: "amp-null", cases: ctx.tier.pick(1500, 100_000), budget_s: ctx.tier.pick(40.0, 600.0), exhaustive: false };
     run_group(ctx, &mut rep, &g, |_, seed, trace| c07_case(seed, Lane::Null, trace));
     #[cfg(feature = "real")]
     {
-        let g = Group { name: "amp-real", cases: ctx.tier.pick(150, 8000), budget_s: ctx.tier.pick(25.0, 400.0), exhaustive: false };
+        let g = Group { name: "amp-real", cases: ctx.tier.pick(150, 8000), budget_s: ctx.tier.pick(25.0, 240.0), exhaustive: false };
         run_group(ctx, &mut rep, &g, |_, seed, trace| c07_case(seed, Lane::Real, trace));
     }
     finish(
@@ -361,11 +361,11 @@ fn c12_controller_case(seed: u64) -> CaseOut {
 pub fn run_c12(ctx: &Ctx) -> i32 {
     let t = Instant::now();
     let mut rep = Report::default();
-    let g = Group { name: "gate", cases: ctx.tier.pick(800, 60_000), budget_s: ctx.tier.pick(35.0, 900.0), exhaustive: false };
+    let g = Group { name: "gate", cases: ctx.tier.pick(800, 60_000), budget_s: ctx.tier.pick(35.0, 540.0), exhaustive: false };
     run_group(ctx, &mut rep, &g, |_, seed, trace| c12_gate_case(seed, trace));
-    let g = Group { name: "clean-path", cases: ctx.tier.pick(400, 20_000), budget_s: ctx.tier.pick(20.0, 400.0), exhaustive: false };
+    let g = Group { name: "clean-path", cases: ctx.tier.pick(400, 20_000), budget_s: ctx.tier.pick(20.0, 240.0), exhaustive: false };
     run_group(ctx, &mut rep, &g, |_, seed, trace| c12_clean_case(seed, trace));
-    let g = Group { name: "controllers", cases: ctx.tier.pick(4000, 400_000), budget_s: ctx.tier.pick(10.0, 300.0), exhaustive: false };
+    let g = Group { name: "controllers", cases: ctx.tier.pick(4000, 400_000), budget_s: ctx.tier.pick(10.0, 180.0), exhaustive: false };
     run_group(ctx, &mut rep, &g, |_, seed, _| c12_controller_case(seed));
     finish(
         ctx,
@@ -450,12 +450,12 @@ fn c13_case(seed: u64, trace: bool) -> CaseOut {
 pub fn run_c13(ctx: &Ctx) -> i32 {
     let t = Instant::now();
     let mut rep = Report::default();
-    let g = Group { name: "mtu", cases: ctx.tier.pick(1000, 60_000), budget_s: ctx.tier.pick(45.0, 1200.0), exhaustive: false };
+    let g = Group { name: "mtu", cases: ctx.tier.pick(1000, 60_000), budget_s: ctx.tier.pick(45.0, 720.0), exhaustive: false };
     run_group(ctx, &mut rep, &g, |_, seed, trace| c13_case(seed, trace));
     // closing packets: CONNECTION_CLOSE / APPLICATION_CLOSE with error codes of every varint size
     // and reasons up to several packets long, sent in every packet space (the C08 scenarios; only
     // the size monitor's verdicts count here)
-    let g = Group { name: "closing", cases: ctx.tier.pick(1500, 60_000), budget_s: ctx.tier.pick(15.0, 400.0), exhaustive: false };
+    let g = Group { name: "closing", cases: ctx.tier.pick(1500, 60_000), budget_s: ctx.tier.pick(15.0, 240.0), exhaustive: false };
     run_group(ctx, &mut rep, &g, |_, seed, trace| super::c08::case(seed, Lane::Null, trace));
     finish(
         ctx,
@@ -529,7 +529,7 @@ fn c16_case(seed: u64, trace: bool) -> CaseOut {
 pub fn run_c16(ctx: &Ctx) -> i32 {
     let t = Instant::now();
     let mut rep = Report::default();
-    let g = Group { name: "dgram", cases: ctx.tier.pick(6000, 200_000), budget_s: ctx.tier.pick(40.0, 1000.0), exhaustive: false };
+    let g = Group { name: "dgram", cases: ctx.tier.pick(6000, 200_000), budget_s: ctx.tier.pick(40.0, 600.0), exhaustive: false };
     run_group(ctx, &mut rep, &g, |_, seed, trace| c16_case(seed, trace));
     finish(
         ctx,
